@@ -21,7 +21,8 @@ IMPORTS = "From U2F Require Import Base.Prelude Fea.Insert."
 RULE = ("abstract feature files of 0-8 top-level statements: user statements, feature blocks for tags {kern,mark,mkmk,liga} with "
         "0-5 items (rules, comments, the '# Automatic Code' marker at top/middle/bottom/alone/twice), generated feature lists "
         "[kern], [mark,mkmk], [abvm,blwm,mark,mkmk], 0-3 lookups, 0-2 definitions. Non-trivial = at least one marker is "
-        "consumed. Plus compiled fonts with hand-written kern/mark/liga features and markers.")
+        "consumed. Plus compiled fonts with hand-written kern/mark/liga features and markers."
+        " Hand-written GDEF tables (classes / carets by position / by contour point) and a Kannada font with hand-written abvm / blwm / mark / mkmk combinations: nothing the user wrote is duplicated or altered.")
 ASSUMPTIONS = []
 
 FN = ("fun c : (list stmt * list str * list str * nat * nat * list stmt) => let '(f, tags, feats, nl, nd, obs) := c in "
